@@ -56,7 +56,8 @@ func scenariosC07() []*scenario {
 		shapes = append(shapes, sh{"three-submitters", 0, [][]string{{}, {}, {}}, [][]string{{"a"}, {"a"}, {"b", "a"}}, nil})
 	}
 	for _, s := range shapes {
-		sc := &scenario{name: fmt.Sprintf("c07/%s/s%d", s.name, s.base), base: s.base, opt: faults, bound: bound, rounds: s.rounds, subs: s.subs}
+		// the subsets of the parallel tile uploads are C03/C04's subject: canonical order here
+		sc := &scenario{name: fmt.Sprintf("c07/%s/s%d", s.name, s.base), base: s.base, opt: faults, bound: bound, rounds: s.rounds, subs: s.subs, uploadsInOrder: true}
 		if s.mod != nil {
 			s.mod(sc)
 		}
